@@ -78,6 +78,15 @@ _MISSING = object()
 def rebind(m, **kw):
     for k, v in kw.items():
         m.__dict__[k] = v
+    # a module of the package that (newly) binds pyarrow.dataset gets the VFS stub as well
+    try:
+        import pyarrow.dataset as _ds
+        from . import vfs
+        for k, v in list(m.__dict__.items()):
+            if v is _ds:
+                m.__dict__[k] = vfs.ds_stub
+    except Exception:
+        pass
 
 
 # ---------------------------------------------------------------------------
